@@ -34,9 +34,11 @@ def gen_cases(tier, seed):
         combos = [(l, nq, d, a, f) for l in LIMITS for nq in (1, 2, 3) for d in DURS for a in ARRS for f in (False, True)]
         rnd.shuffle(combos)
         n = {"quick": 36 if kind == "mem" else 14, "thorough": 300 if kind == "mem" else 90}[tier]
-        for l, nq, d, a, f in combos[:n]:
+        for ci, (l, nq, d, a, f) in enumerate(combos[:n]):
             cases.append({"kind": kind, "limit": l, "nq": nq, "dur": d, "arr": a, "fail": f, "n": rnd.choice([6, 12, 25]) if l < 10 else rnd.choice([15, 40]),
-                          "seed": rnd.randrange(10**6), "latency": None if kind == "mem" else rnd.choice([None, 0.002])})
+                          "seed": rnd.randrange(10**6), "latency": None if kind == "mem" else rnd.choice([None, 0.002]),
+                          # RabbitMQ takes the consumers away while the worker runs (consumer cancel notification): they come back
+                          "srv_cancel": kind == "rabbit" and ci % 3 == 0})
     # real threads, real time: synchronous actors through the ThreadPoolExecutor path of asyncify (no virtual loop)
     for l in (1, 2, 3):
         cases.append({"kind": "mem", "type": "threads", "limit": l, "n": 14, "seed": rnd.randrange(10**6)})
@@ -212,6 +214,14 @@ async def scenario(loop, case, out, stats, fps, samples):
                     await enq(rest.pop(0))
 
         prod = loop.create_task(producer())
+        if case.get("srv_cancel"):
+            async def canceller():
+                for at in (0.45, 1.3, 1.3005, 3.1):
+                    await asyncio.sleep(max(0.0, at - (loop.time() - t_run0)))
+                    stats["consumer_cancel_notifications"] += w.rig.server.server_cancel()
+
+            t_run0 = loop.time()
+            canc = loop.create_task(canceller())
 
         leaking = {j["id"] for j in jobs if j["leaks"]}
 
@@ -223,6 +233,8 @@ async def scenario(loop, case, out, stats, fps, samples):
         bound = total / min(limit, n) + max(ds) * 2 + n * delta + 12.0 + (n * 0.4 if arr in ("trickle", "burst") else 0) + (sum(sorted(ds)[-n:]) if arr == "slot_free" else 0)
         info = await run_worker(w, worker, until=done, horizon=bound, poll=0.1)
         prod.cancel()
+        if case.get("srv_cancel"):
+            canc.cancel()
         if info["exc"] is not None or not info["returned"]:
             out.append(V("stall", kind, "worker-run", f"Worker.run: exc={info['exc']!r} returned={info['returned']}"))
         # ---- monitor
